@@ -23,10 +23,32 @@ struct Run<'a, C: Cs> {
     order: usize,
 }
 
+/// what the issuer holds after receiving a commitment over the wire: the value, not the opening
+fn wire(c: &CL03Commitment) -> CL03Commitment {
+    CL03Commitment { value: c.value.clone(), randomness: Integer::from(0) }
+}
+
 impl<'a, C: Cs> Run<'a, C> {
     fn verify(&self, zk: &Zk<C>, c: &CL03Commitment, u: &[usize]) -> bool {
         let bases = self.st.bases_n(self.n);
         zk.verify_proof(c, self.trusted.as_ref().map(|t| &t.0), self.st.pk(), &bases, self.trusted.as_ref().map(|t| t.1), u)
+    }
+    /// the issuer's call: commitments as received (values only), proof after its JSON transport
+    fn verify_as_issuer(&self, zk: &Zk<C>, c: &CL03Commitment, u: &[usize]) -> bool {
+        let bases = self.st.bases_n(self.n);
+        let zk2: Zk<C> = serde_json::from_str(&serde_json::to_string(zk).unwrap()).unwrap();
+        let t = self.trusted.as_ref().map(|t| wire(&t.0));
+        zk2.verify_proof(&wire(c), t.as_ref(), self.st.pk(), &bases, self.trusted.as_ref().map(|t| t.1), u)
+    }
+    fn blind_sign_as_issuer(&self, zk: &Zk<C>, c: &CL03Commitment, u: &[usize]) -> BlindSignature<CL03<C>> {
+        let bases = self.st.bases_n(self.n);
+        let (ri, rm) = self.revealed();
+        let zk2: Zk<C> = serde_json::from_str(&serde_json::to_string(zk).unwrap()).unwrap();
+        let t = self.trusted.as_ref().map(|t| wire(&t.0));
+        BlindSignature::<CL03<C>>::blind_sign(
+            self.st.pk(), self.st.sk(), &bases, &zk2, Some(&rm), &wire(c),
+            t.as_ref(), self.trusted.as_ref().map(|t| t.1), u, Some(&ri),
+        )
     }
     /// revealed (index, attribute) pairs; `order` permutes the pairs (the API takes two parallel lists, the
     /// order in which a caller lists the pairs must not matter)
@@ -91,6 +113,21 @@ fn issuance<C: Cs>(ctx: &Ctx, st: &Setup<C>, own: Option<&CL03CommitmentPublicKe
     if ok.value != Some(true) {
         ctx.violation("C14:honest-proof-rejected", json!({"case":case,"hidden":u,"n":n,"outcome":format!("{:?}/{}", ok.value, ok.outcome.short())}));
         return;
+    }
+    // the same request as the issuer really sees it: value-only commitments, proof transported as JSON
+    let ok2 = ctx.call("ZKPoK::verify_proof", &case, None, || Ok::<_, ()>(run.verify_as_issuer(&run.zk, &c, &u)));
+    if ok2.value != Some(true) {
+        ctx.violation("C14:honest-proof-rejected-by-issuer-view", json!({"case":case,"hidden":u,"n":n,"outcome":format!("{:?}/{}", ok2.value, ok2.outcome.short())}));
+    }
+    let bs2 = ctx.call("blind_sign", &case, None, || Ok::<_, ()>(run.blind_sign_as_issuer(&run.zk, &c, &u)));
+    match bs2.value {
+        Some(b2) => {
+            let s2 = ctx.call("unblind_sign", &case, None, || Ok::<_, ()>(b2.unblind_sign(&run.commitment))).value;
+            if !matches!(&s2, Some(s) if s.verify_multiattr(st.pk(), &bases, &msgs)) {
+                ctx.violation("C14:unblinded-signature-rejected", json!({"case":case,"issuer_view":true}));
+            }
+        }
+        None => ctx.violation("C14:blind_sign-refused-honest-request", json!({"case":case,"issuer_view":true,"outcome":bs2.outcome.short()})),
     }
     let bs = ctx.call("blind_sign", &case, None, || Ok::<_, ()>(run.blind_sign(&run.zk, &c, &u)));
     let Some(bsig) = bs.value else {
